@@ -12,7 +12,12 @@ use std::pin::Pin;
 use std::task::{Context, Poll};
 
 use crate::internal::sync::{Arc, AtomicBool, Ordering};
+#[cfg(not(excsn_fibre_verif))]
 use std::time::{Duration, Instant};
+#[cfg(excsn_fibre_verif)]
+use std::time::Duration;
+#[cfg(excsn_fibre_verif)]
+use fibre_verif_rt::time::Instant;
 
 use futures_core::Stream;
 
